@@ -98,6 +98,29 @@ func TotalM(xs []int) int {
 
 func Nothing(xs []int) { helperEach(xs, nil) }
 
+func helperSum[T int | int64](xs []T) (T, error) {
+	var s T
+	for _, x := range xs {
+		if x < 0 {
+			return 0, errors.New("negative")
+		}
+		s += x
+	}
+	return s, nil
+}
+
+func SumBoth(a []int, b []int64) (int64, error) {
+	x, err := helperSum(a)
+	if err != nil {
+		return 0, err
+	}
+	y, err := helperSum(b)
+	if err != nil {
+		return 0, err
+	}
+	return int64(x) + y, nil
+}
+
 func Twice(x int) int {
 	double := func(v int) int { return v + v }
 	return double(double(x))
@@ -174,6 +197,10 @@ func TestExpansionAndThreading(t *testing.T) {
 				}
 			}
 		}
+	}
+	sb := pkg.Func("SumBoth")
+	if s := fnText(sb); strings.Contains(s, "helperSum[") {
+		t.Errorf("instances of the generic helper not expanded:\n%s", s)
 	}
 	tw := pkg.Func("Twice")
 	if s := fnText(tw); strings.Contains(s, "make closure") || strings.Contains(s, "double(") {
